@@ -70,7 +70,9 @@ STRUCTS = {}   # last path segment -> (generic params, [(field name, field type)
 BUILTIN_STRUCTS = {
     'NonNull': (['T'], [('pointer', '*const T')]),
     'MaybeUninit': (['T'], [('value', 'T')]),
-    'ManuallyDrop': (['T'], [('value', 'T')]),
+    'ManuallyDrop': (['T'], [('value', 'MaybeDangling<T>')]),
+    'MaybeDangling': (['T'], [('0', 'T')]),
+    'NeverShortCircuit': (['T'], [('0', 'T')]),
     'Range': (['T'], [('start', 'T'), ('end', 'T')]),
     'RangeInclusive': (['T'], [('start', 'T'), ('end', 'T'), ('exhausted', 'bool')]),
     'Iter': (['T'], [('ptr', 'NonNull<T>'), ('end_or_len', '*const T'), ('_marker', '()')]),
@@ -81,8 +83,8 @@ BUILTIN_STRUCTS = {
     'Map': (['I', 'F'], [('iter', 'I'), ('f', 'F')]),
     'Cloned': (['I'], [('it', 'I')]),
     'Copied': (['I'], [('it', 'I')]),
-    'IntoIter': (['T', 'N'], [('data', '[T; N]'), ('alive', 'IndexRange')]),
-    'PolymorphicIter': (['T'], [('data', 'T'), ('alive', 'IndexRange')]),
+    'IntoIter': (['T', 'N'], [('inner', 'ManuallyDrop<PolymorphicIter<[MaybeUninit<T>; N]>>')]),
+    'PolymorphicIter': (['T'], [('alive', 'IndexRange'), ('data', 'T')]),
     'IndexRange': ([], [('start', 'usize'), ('end', 'usize')]),
     'Wrapping': (['T'], [('0', 'T')]),
     'Alignment': ([], [('0', 'usize')]),
@@ -199,7 +201,25 @@ def pointee(t):
 
 
 def is_unsized(t):
-    return (t.startswith('[') and ';' not in t and t.endswith(']')) or t == 'str'
+    if (t.startswith('[') and t.endswith(']') and array_parts(t)[1] is None) or t == 'str':
+        return True
+    if '<' in t and not t.startswith(('&', '*', '(', '[')):
+        name, args = ty_split_adt(t)
+        if name in STRUCTS and name not in ('NonNull',):
+            try:
+                fts = field_types(t)
+            except Exception:
+                return False
+            return bool(fts) and is_unsized(norm_ty(fts[-1]))
+    return False
+
+
+def unsized_tail_len(src_pointee, dst_pointee):
+    """Length metadata produced by an Unsize coercion from src_pointee to dst_pointee."""
+    if src_pointee.startswith('['):
+        return array_parts(src_pointee)[1]
+    fs, fd = field_types(src_pointee), field_types(dst_pointee)
+    return unsized_tail_len(norm_ty(fs[-1]), norm_ty(fd[-1]))
 
 
 _nl = {}
